@@ -50,12 +50,17 @@ def verify_target(job):
             modname, qual = target.split("#")[0].split(":")
             out["source"] = v.module(modname).function_source(qual)
         out["trivial"] = ex.trivial
+        import ast as _ast
+        cobj = v.registry.contracts.get(target) if not target.startswith("lemma:") else None
+        out["native_only_clauses"] = [_ast.unparse(e)[:240] for e in getattr(cobj, "native_ensures", [])] if cobj is not None else []
         timeout = 20000 if tier == "quick" else 120000
         out["generated"] = len(obls)
         for i, o in enumerate(obls):
             if i % nsl != k:
                 continue
-            r = discharge(o, timeout, use_cvc5=True)
+            # after two undischarged obligations in this slice the verdict of the function is settled: the rest gets the
+            # cheap stage only (recorded as "not pursued", never reported as a violation by itself)
+            r = discharge(o, timeout, use_cvc5=True, cheap_only=len(out["failed"]) >= 2)
             rec = {"name": o.name, "status": r["status"], "backend": r["backend"], "seconds": round(r["seconds"], 3), "index": i}
             if tier == "thorough" and r["status"] == "proved":
                 from pyvc.solve import cvc5_check
@@ -159,6 +164,16 @@ def clause_key(name):
     """'classify.f:L123:ensures[0.1]#2.0' -> 'classify.f:ensures[0.1]' (line numbers are not identity)."""
     m = re.match(r"^(.*?):L\d+:(.*?)#", name)
     return "%s:%s" % (m.group(1), m.group(2)) if m else name
+
+
+def backend_summary(per_obl):
+    """How many obligations each back end / configuration discharged (hypothesis-subset size dropped)."""
+    import collections
+    c = collections.Counter()
+    for o in per_obl:
+        if o.get("status") == "proved":
+            c[re.sub(r"\[\d+ of \d+ hyps\]", "", o.get("backend", "?"))] += 1
+    return dict(c.most_common())
 
 
 def has_examples(target):
@@ -338,10 +353,14 @@ def main(argv=None):
         called.update(r.get("called", []))
         info = dict(r["source"] or {"qualname": t})
         info.update({"obligations": n, "discharged": ok, "trivially_true": r["trivial"], "vc_seconds": round(r["seconds"], 2)})
+        if r.get("native_only_clauses"):
+            info["clauses_NOT_discharged_checked_by_the_bounded_native_run_only"] = r["native_only_clauses"]
         functions_under_contract.append(info)
         if ok == n:
             functions_proved.append(t)
         for f in r["failed"]:
+            if str(f.get("reason", "")).startswith("not pursued"):
+                continue          # settled by the obligations reported before it; listed in the evidence only
             key = clause_key(f["name"])
             fails = native_failures.get(t) or []
             src_t = t
@@ -470,6 +489,7 @@ def main(argv=None):
             "cpython_crosscheck_of_the_model": crosschecks,
             "float_mode": cfg.get("float_mode", "R: floats treated as mathematical reals"),
             "solver_seconds": round(solver_s, 2),
+            "discharged_by_backend": backend_summary(per_obl),
             "degraded_or_undecided": undecided,
             "known_findings_printed": sorted(set(known_lines)),
             "samples": [o for o in per_obl[:3]] + [o for o in per_obl if o["status"] != "proved"][:5],
